@@ -143,6 +143,14 @@ CHECKS.append({
     "technique": "Coq proof (soundness theorems of a strict IR type checker) + extracted checker run on the type checker's output for corpus and generated programs + injected-violation rejection runs",
 })
 
+CHECKS.append({
+    "property_id": "C01",
+    "text": "Translation validation with a proved comparison: for every program the emitted HLSL (DirectX and Vulkan flavours) is read back by the front end and its typed IR is compared with the typed IR of the source item by item — every function body with its literal bit patterns, operators, conversions, call targets, argument lists and parameter directions, every global initialiser, struct layout and enum value. Coq theorems about the comparison (coq/model/Alpha.v): it succeeds only if the second dump is the first with its local variables renamed one-to-one (every other word identical, position by position), and it is reflexive (no false differences). Inputs: repository sources, 22 accepted/rejected programs, generated programs of the executable resource-free subset (structs with methods, enums, namespaces, static const and mutable static globals, overloads, function templates, in/out/inout and default parameters, every statement and expression form) and short soups in valid programs.",
+    "design_ref": "DESIGN.md §4 C01",
+    "note": "Partial: what is proved is the comparison; that the front end's reading of the emitted text is HLSL's reading, and that semantics is invariant under renaming of local ids, are stated assumptions; no evaluator. Two known findings (comparison chains re-read as template arguments; volatile reaching a global through a typedef is dropped).",
+    "technique": "Coq proof (soundness and reflexivity of the alpha-comparison of IR dumps) + translation validation of every export by re-reading the emitted text with the front end",
+})
+
 _claimed = {c["property_id"] for c in CHECKS}
 NOT_APPLICABLE = [
     {"property_id": p, "reason": "not yet claimed: model/theorems under construction (see DESIGN.md build order); no check registered until it passes on the unchanged tree"}
